@@ -174,7 +174,7 @@ def project(ex):
                 best["acc"] = list(accs)
             return pos >= len(W)
         m = mm_at(j, pos)
-        cands = (m, m - 1, m - 2)
+        cands = (m, m - 1, m - 2, 0)     # 0: dropped entirely (identical echo messages make the longest match ambiguous)
         if pos + m > len(W) and len(W) >= pos:
             w0 = len(W) - pos
             cands = cands + (w0, w0 - 1, w0 - 2)
